@@ -1,5 +1,13 @@
 //! Types shared between the generated twins (corpus.rs) and the C17 harness.
 
+/// an early exit whose `return` is hidden in a macro (as `bail!` / `ensure!` style macros do)
+#[macro_export]
+macro_rules! bail_with {
+    ($e:expr) => {
+        return $e
+    };
+}
+
 use std::cell::{Cell, RefCell};
 use std::fmt;
 use std::future::Future;
